@@ -223,3 +223,41 @@ Theorem reuse_without_buffer_check_refuted :
   option_map (fun rb => b_data (snd rb)) (exchange (bs "GET") [] (snd (nth 1 splice_demo ([], []))))
     = Some (bs "fresh").
 Proof. vm_compute. repeat split. Qed.
+
+(* a connection goes on to serve a further request only after a FINAL response (status > 199)
+   that did not ask for close, whose body ended cleanly, with nothing buffered behind it: in
+   particular never after a terminal 1xx (a 101 that is not a protocol switch) or a 0xx status *)
+Theorem reuse_real_spec r b :
+  reuse_real r b = true <->
+  r_close r = false /\ (no_reuse_status_bound < r_code r)%Z /\ b_end b = BOk /\ b_rest b = [].
+Proof.
+  unfold reuse_real, reuse_without_buffer_check. rewrite !andb_true_iff, negb_true_iff, Z.ltb_lt.
+  split.
+  - intros (((Hc & Hs) & He) & Hn). repeat split; try assumption.
+    + destruct (b_end b); try discriminate; reflexivity.
+    + destruct (b_rest b); [reflexivity|discriminate].
+  - intros (Hc & Hs & He & Hn). rewrite He, Hn. repeat split; assumption.
+Qed.
+
+Lemma conn_continues_gen : forall reqs buf i r b,
+  nth_error (conn_exchanges reuse_real buf reqs) i = Some (Some (r, b)) ->
+  S i < length (conn_exchanges reuse_real buf reqs) ->
+  r_close r = false /\ (199 < r_code r)%Z /\ b_end b = BOk /\ b_rest b = @nil byte.
+Proof.
+  induction reqs as [|[m seg] more IH]; intros buf i r b Hn Hl.
+  - destruct i; discriminate.
+  - cbn [conn_exchanges] in *. destruct (exchange m buf seg) as [[r0 b0]|].
+    + destruct i as [|i].
+      * cbn in Hn. inversion Hn; subst. cbn [length] in Hl.
+        destruct (reuse_real r b) eqn:E; [now apply reuse_real_spec in E|cbn in Hl; lia].
+      * cbn [nth_error length] in Hn, Hl. destruct (reuse_real r0 b0).
+        -- eapply IH; [exact Hn|lia].
+        -- destruct i; discriminate.
+    + cbn in Hl. lia.
+Qed.
+
+Theorem conn_continues_only_after_final : forall reqs i r b,
+  nth_error (conn_exchanges reuse_real [] reqs) i = Some (Some (r, b)) ->
+  S i < length (conn_exchanges reuse_real [] reqs) ->
+  r_close r = false /\ (199 < r_code r)%Z /\ b_end b = BOk /\ b_rest b = [].
+Proof. intros reqs. apply conn_continues_gen. Qed.
